@@ -64,6 +64,13 @@ if UNDER_CROSSHAIR:
         _VAL_MOD.isfinite = isfinite_py
 
 
+if UNDER_CROSSHAIR:
+    from crosshair.tracers import NoTracing as notrace
+else:
+    import contextlib
+    notrace = contextlib.nullcontext
+
+
 def assume(cond):
     if not cond:
         raise IgnoreAttempt("assumption")
@@ -1036,8 +1043,9 @@ ANY_MENU = ((schema.int,), (schema.int, schema.str), (5,), (schema.any(schema.in
 
 def props_fp(s):
     """Fingerprint of a schema's registry: key set and identity of every value."""
-    reg = s.props._registry
-    return [(k, id(reg[k])) for k in reg]
+    with notrace():
+        reg = s.props._registry
+        return [(k, id(reg[k])) for k in reg]
 
 
 def arg_of(sym, m, menu=ARG_MENU):
@@ -1369,3 +1377,114 @@ def custom_gen_problem(spec, flags, ints, chars):
     if e1 is None and ok_validate(T, g1) and not ok_validate(T, g2):
         return "value generated through the custom type does not conform"
     return ""
+
+
+# --------------------------------------------------------------------------- C07: immutability / purity
+import collections  # noqa: E402
+
+import d42.representation as _REP_PKG  # noqa: E402
+import d42.substitution as _SUB_PKG  # noqa: E402
+import d42.validation as _VAL_PKG  # noqa: E402
+
+_SINGLETONS = (
+    ("validation._validator", _VAL_PKG._validator), ("validation._formatter", _VAL_PKG._formatter),
+    ("generation._generator", d42.generation._generator), ("generation._random", d42.generation._random),
+    ("generation._generator._regex_generator", d42.generation._generator._regex_generator),
+    ("representation._representor", _REP_PKG._representor), ("substitution._substitutor", _SUB_PKG._substitutor),
+    ("substitution._substitutor._validator", _SUB_PKG._substitutor._validator),
+    ("substitution._substitutor._formatter", _SUB_PKG._substitutor._formatter),
+)
+
+
+def deep_fp(x, depth=0):
+    """Structural fingerprint with identity of leaves: equal before/after <=> nothing reachable was mutated."""
+    if depth > 12:
+        return ("deep",)
+    if isinstance(x, Schema):
+        reg = x.props._registry
+        return ("schema", type(x).__name__, id(x), id(reg), [(k, deep_fp(reg[k], depth + 1)) for k in reg])
+    if isinstance(x, (list, tuple)):
+        return (type(x).__name__, id(x), [deep_fp(y, depth + 1) for y in x])
+    if isinstance(x, dict):
+        return (type(x).__name__, id(x), [(deep_fp(k, depth + 1), deep_fp(x[k], depth + 1)) for k in x])
+    if isinstance(x, (set, frozenset)):
+        return (type(x).__name__, id(x), len(x))
+    if isinstance(x, optional):
+        return ("optional", deep_fp(x.key, depth + 1))
+    return ("leaf", id(x))
+
+
+def singletons_fp():
+    out = []
+    for name, obj in _SINGLETONS:
+        dd = obj.__dict__
+        out.append((name, id(obj), [(k, id(dd[k]), deep_fp(dd[k]) if isinstance(dd[k], (dict, list)) else None) for k in dd]))
+    return out
+
+
+class Frozen:
+    """with Frozen(obj1, obj2, ...) as fz: ...; fz.problem() == '' iff nothing reachable from the objects
+    or from d42's module-level visitor singletons changed."""
+
+    def __init__(self, *objs):
+        self.objs = objs
+
+    def __enter__(self):
+        with notrace():     # pure bookkeeping over concrete structure and object identities
+            self.before = [deep_fp(o) for o in self.objs]
+            self.sing = singletons_fp()
+        return self
+
+    def __exit__(self, *exc):
+        return False
+
+    def problem(self):
+        with notrace():
+            for i, o in enumerate(self.objs):
+                if deep_fp(o) != self.before[i]:
+                    return "object %d of the pool/arguments was mutated" % i
+            if singletons_fp() != self.sing:
+                return "a module-level visitor singleton was mutated"
+        return ""
+
+
+def pool(p, n, al, x, rel):
+    """A shared pool of schemas with symbolic parameters."""
+    A = schema.dict({"a": schema.int.min(p), optional("b"): schema.list(schema.str.len(n, ...)), **({...: ...} if rel else {})})
+    B = schema.list([schema.int(x), ...])
+    C = schema.any(A, schema.none)
+    D = schema.str.alphabet(al).len(..., n)
+    E = schema.alias("T", schema.list(schema.int.max(p)).len(..., n))
+    return A, B, C, D, E
+
+
+def mutate(c, sel, item):
+    """One solver-chosen in-place mutation of a caller-owned list or dict."""
+    if isinstance(c, list):
+        if sel == 0:
+            c.append(item)
+        elif sel == 1:
+            if len(c) > 0:
+                c.pop()
+        elif sel == 2:
+            if len(c) > 0:
+                c[0] = item
+        elif sel == 3:
+            c.clear()
+        elif sel == 4:
+            c.insert(0, item)
+        else:
+            raise IgnoreAttempt("sel")
+    else:
+        if sel == 0:
+            c["zz"] = item
+        elif sel == 1:
+            if len(c) > 0:
+                c.pop(next(iter(c)))
+        elif sel == 2:
+            if len(c) > 0:
+                c[next(iter(c))] = item
+        elif sel == 3:
+            c.clear()
+        else:
+            raise IgnoreAttempt("sel")
